@@ -198,6 +198,10 @@ const char *fd_name(struct uref *fd)
     const char *def = NULL;
     if (fd == NULL || !ubase_check(uref_flow_get_def(fd, &def))) return "none";
     snprintf(buf, sizeof(buf), "%s", def);
+    /* a definition made by make_fd("..+"): same def string plus one more attribute (a strict superset) */
+    uint8_t plus = 0;
+    if (ubase_check(uref_attr_get_small_unsigned(fd, &plus, UDICT_TYPE_SMALL_UNSIGNED, "x.plus")))
+        for (size_t l = strlen(buf); plus > 0 && l + 1 < sizeof(buf); plus--, l++) { buf[l] = '+'; buf[l + 1] = 0; }
     return buf;
 }
 
@@ -498,10 +502,15 @@ struct uref *make_fd(const char *fdname)
     char body[32];
     snprintf(body, sizeof(body), "%s", fdname + 1);
     size_t l = strlen(body);
+    uint8_t plus = 0;            /* trailing '+': the same definition with one more attribute */
+    while (l && body[l - 1] == '+') { body[--l] = 0; plus++; }
     if (l && body[l - 1] == '2') body[l - 1] = 0;
     if (fam == 'b') {
         snprintf(def, sizeof(def), "%s.", body);
-        return uref_block_flow_alloc_def(g_uref, def);
+        struct uref *bfd = uref_block_flow_alloc_def(g_uref, def);
+        if (bfd != NULL && plus)
+            uref_attr_set_small_unsigned(bfd, plus, UDICT_TYPE_SMALL_UNSIGNED, "x.plus");
+        return bfd;
     }
     struct uref *fd = uref_alloc_control(g_uref);
     snprintf(def, sizeof(def), "%s.", fdname);
